@@ -29,21 +29,7 @@
 (*     and logs each value's index; this map is injective and monotone on  *)
 (*     the values of the record, so the operators commute with it exactly. *)
 (***************************************************************************)
-EXTENDS Naturals
-
-TMin(a, b) == IF a <= b THEN a ELSE b
-
-\* the effective limit of one side: 0 = unlimited = the field's maximum
-Lim(x, top) == IF x = 0 THEN top ELSE x
-
-\* channel_max / frame_max
-Neg(c, s, top) == TMin(Lim(c, top), Lim(s, top))
-
-\* heartbeat: plain minimum, so 0 (disabled) on either side disables
-HbNeg(c, s) == TMin(c, s)
-
-\* `f` = negotiated frame_max, `fmin` = (rank of) 4096
-TooSmall(f, fmin) == f < fmin
+EXTENDS Naturals, TuneOps   \* TMin, Lim, Neg, HbNeg, TooSmall live in TuneOps.tla (shared with TuneInd.tla)
 
 \* Outcome for client triple c and server triple s, each <<channel_max, frame_max, heartbeat>>.
 \* top16/top32: field maxima of the u16 fields / of frame_max in the domain used.
